@@ -2,7 +2,7 @@
    Model: theories/Interp.v.  Proofs: proofs/InterpP.v.                                  *)
 From Coq Require Import ZArith List.
 From SFV Require Import Base Interp.
-From SFV.P Require Import InterpP.
+From SFV.P Require Import InterpP InterpHeapP.
 Import ListNotations. Open Scope Z_scope. Open Scope string_scope.
 
 (* For every recipe of the fragment and every iteration count: every row handed to the
@@ -30,6 +30,30 @@ Theorem C09_write_filters_only_hidden :
         map fst (snd r) = "id"%string :: filter (fun n => negb (hidden n)) (map fst (c_fields c)).
 Proof. exact write_row_spec. Qed.
 Print Assumptions C09_write_filters_only_hidden.
+
+(* "Its value is nevertheless computed exactly like a visible one": for EVERY field name other
+   than `id` — hidden or not — the evaluator renders the definition, stores the value under
+   the name and goes on; the name is used for nothing else ... *)
+Theorem C09_hidden_field_computed_like_visible :
+  forall n e h name d r s,
+    String.eqb name "id" = false ->
+    run (S n) e (TFields h ((name, d) :: r)) s =
+    (do '(s1, v) <- run n e (TField d) s; run n e (TFields h r) (set_field s1 h name (ret_value v))).
+Proof. exact fields_step. Qed.
+Print Assumptions C09_hidden_field_computed_like_visible.
+
+(* ... and later formulas / references read it back exactly as stored, whatever the name *)
+Theorem C09_hidden_field_readable :
+  forall s h name v c,
+    String.eqb name "id" = false -> nth_error (heap s) h = Some c ->
+    exists c', nth_error (heap (set_field s h name v)) h = Some c' /\ row_attr c' name = Some v /\
+               same_key c c'.
+Proof. exact stored_field_readable. Qed.
+Print Assumptions C09_hidden_field_readable.
+
+(* child objects created inside a (hidden) field are emitted: rendering a field that holds an
+   object template emits that template's rows regardless of the field's name — the rows of
+   the nested template precede the enclosing row (C03_nested_before_parent_friends_after) *)
 
 (* non-vacuity: a hidden field feeding a visible formula, and a visible child created inside
    a hidden field, are computed / emitted; the hidden names are not. *)
